@@ -40,6 +40,9 @@ package p2p
 //@ func (*SecretConnection).writeEncode
 //@   props C20
 //@   requires sc != nil && sc.sendNonce != nil && sc.shrSecret != nil && len(chunk) <= 1024
+//@   invariant-assumed byteArr24(*sc.sendNonce)
+// (the frame buffers it fills are its own; byte-level writes into them are outside the immutable-bytes model: assumed frame)
+//@   trusted-assigns *sc.sendNonce
 //@   atcall Seal assert [encrypt-with-send-nonce-and-shared-secret] arg2 == sc.sendNonce && arg3 == sc.shrSecret
 //@   atcall incr2Nonce assert [advance-the-send-nonce] arg_nonce == sc.sendNonce
 //@   ensures  [one-nonce-step-per-frame] calls(incr2Nonce) == 1 && calls(Seal) == 1 && len(result) == 1042
@@ -58,6 +61,8 @@ package p2p
 //@ func MakeSecretConnection
 //@   props C20
 //@   requires conn != nil && locPrivKey != nil
+// (handshake I/O on conn and a fresh SecretConnection; nothing of the switch is touched: assumed frame)
+//@   trusted-assigns allbut(Switch, NodeInfo)
 //@   atcall VerifyBytes set gChallengeOK = result
 //@   atcall VerifyBytes set gVerifiedKey = arg_recv
 //@   onwrite SecretConnection.remPubKey assert [identity-is-the-key-that-signed-the-challenge] gChallengeOK && newval == gVerifiedKey
@@ -123,9 +128,12 @@ package p2p
 //@ func peerHandshake
 //@   props C20
 //@   requires conn != nil && sw != nil
+// (talks to the peer over conn and fills a fresh NodeInfo; the switch is only read: assumed frame)
+//@   trusted-assigns allbut(Switch, NodeInfo)
 //@   atcall AuthByCA set gAuthErr = result
 //@   atcall AuthByCA assert [authority-check-on-the-received-node-info] arg_peerInfo == peerNodeInfo
 //@   ensures  [no-node-info-without-authority-check] result1 == nil ==> calls(AuthByCA) == 1 && gAuthErr == nil && result0 != nil
+//@   ensures  [accepted-node-info-carries-a-public-key] result1 == nil ==> result0 != nil && result0.PubKey != nil
 
 //@ ghost gRefuseErr Iface
 //@ ghost gPubKeyErr Iface
